@@ -110,7 +110,7 @@ def run_batch(ctx, exe, items, tag, timeout_ms=None, cfgs=None, stats=None):
         pairs.append(dict(id=len(pairs), src_id=r['id'], cfgs=r['cfgs'], out=r['out'], seed=ctx.seed, nenv=it['nenv'], probe=it['probe'],
                           ast=1 if it.get('ast') else 0, fam=it['fam'], nobig=1 if gen.needs_nobig(it['src']) else 0, **{'in': it['src']}))
     for p in pairs:
-        p['maxvary'] = 2 if ctx.quick() else 3      # free names whose binding varies over the spec's environment space
+        p['maxvary'] = 2                            # free names whose binding varies over the spec's environment space (10^2 environments)
         p['nspec'] = 2 if ctx.quick() else 4
     obs = node_observe(ctx, [dict((k, p[k]) for k in ('id', 'in', 'out', 'seed', 'nenv', 'probe', 'ast', 'nobig', 'maxvary', 'nspec')) for p in pairs], tag,
                        timeout_ms=timeout_ms)
